@@ -251,9 +251,13 @@ impl<C: Suite> Model for M01<C> {
 }
 
 pub fn models(tier: Tier, seed: u64) -> Vec<Box<dyn DynModel>> {
+    let h = crate::props::hist::MHist::new("C01", tier, seed);
+    let d = h.depth();
     vec![
         bounded(M01::<Bls12381G1Impl>::new(tier, seed), 3),
         bounded(M01::<Bls12381G2Impl>::new(tier, seed), 3),
+        // operation histories over both groups: signing is deterministic whatever ran before on the same thread
+        bounded(h, d),
     ]
 }
 
